@@ -207,3 +207,198 @@ theorem eqString_id (n : Nat) (s : List Nat) (hn : n < 4294967296) :
     · rw [if_pos (by simp [ha]), hfalse (by intro d' ds' h; simp only [List.cons.injEq] at h; exact ha h.1)]
 
 end Pelite.Resources
+
+namespace Pelite.Resources
+open Pelite
+
+/-! ### UTF-8 / UTF-16 -/
+
+def AllScalar (cs : List Nat) : Prop := ∀ c ∈ cs, IsScalar c
+
+theorem allScalar_cons {c : Nat} {cs : List Nat} (h1 : IsScalar c) (h2 : AllScalar cs) : AllScalar (c :: cs) := by
+  intro x hx
+  rcases List.mem_cons.1 hx with rfl | hx
+  · exact h1
+  · exact h2 x hx
+
+theorem map_cons_scalar {c : Nat} {o : Option (List Nat)} (hc : IsScalar c) (ih : ∀ cs, o = some cs → AllScalar cs) :
+    ∀ cs, Option.map (fun x => c :: x) o = some cs → AllScalar cs := by
+  intro cs h
+  cases o with
+  | none => cases h
+  | some cs' => cases h; exact allScalar_cons hc (ih cs' rfl)
+
+theorem utf8Chars_scalar (s : List Nat) : ∀ cs, utf8Chars s = some cs → AllScalar cs := by
+  fun_induction utf8Chars s
+  case case1 => intro cs h; cases h; intro x hx; cases hx
+  case case2 => rename_i b0 rest h ih; exact map_cons_scalar (Or.inl (by omega)) ih
+  case case3 =>
+    rename_i b0 h1 h2 b1 rest1 h3 ih
+    simp only [isCont, decide_eq_true_eq] at h3
+    exact map_cons_scalar (Or.inl (by omega)) ih
+  case case6 =>
+    rename_i b0 h1 h2 h3 b1 b2 rest2 lo hi h4 ih
+    simp only [isCont, decide_eq_true_eq, lo, hi] at h4
+    refine map_cons_scalar ?_ ih
+    unfold IsScalar
+    by_cases e0 : b0 = 224
+    · simp [e0] at h4; omega
+    · by_cases e1 : b0 = 237
+      · simp [e1] at h4; omega
+      · simp [e0, e1] at h4; omega
+  case case9 =>
+    rename_i b0 h1 h2 h3 h4 b1 b2 b3 rest3 lo hi h5 ih
+    simp only [isCont, decide_eq_true_eq, lo, hi] at h5
+    refine map_cons_scalar ?_ ih
+    unfold IsScalar
+    by_cases e0 : b0 = 240
+    · simp [e0] at h5; omega
+    · by_cases e1 : b0 = 244
+      · simp [e1] at h5; omega
+      · simp [e0, e1] at h5; omega
+  all_goals (intro cs h; cases h)
+
+theorem decodeUtf16_bmp (u : Nat) (rest : List Nat) (h : u < 0xD800 ∨ 0xE000 ≤ u) :
+    decodeUtf16 (u :: rest) = .ok u :: decodeUtf16 rest := by
+  cases rest with
+  | nil => simp only [decodeUtf16]; rw [if_pos h]
+  | cons u2 r => simp only [decodeUtf16]; rw [if_pos h]
+
+theorem decodeUtf16_pair (u u2 : Nat) (rest : List Nat) (h1 : 0xD800 ≤ u ∧ u < 0xDC00) (h2 : 0xDC00 ≤ u2 ∧ u2 ≤ 0xDFFF) :
+    decodeUtf16 (u :: u2 :: rest) = .ok ((u % 0x400) * 0x400 + u2 % 0x400 + 0x10000) :: decodeUtf16 rest := by
+  simp only [decodeUtf16]
+  rw [if_neg (by omega), if_neg (by omega), if_neg (by omega)]
+
+/-- a surrogate that does not start a valid pair decodes to an error item -/
+theorem decodeUtf16_bad (u : Nat) (rest : List Nat) (h0 : ¬ (u < 0xD800 ∨ 0xE000 ≤ u))
+    (h : 0xDC00 ≤ u ∨ rest = [] ∨ ∃ u2 r, rest = u2 :: r ∧ (u2 < 0xDC00 ∨ 0xDFFF < u2)) :
+    ∃ tl, decodeUtf16 (u :: rest) = .bad u :: tl := by
+  cases rest with
+  | nil => exact ⟨[], by simp only [decodeUtf16]; rw [if_neg h0]⟩
+  | cons u2 r =>
+    simp only [decodeUtf16]
+    rw [if_neg h0]
+    by_cases c1 : 0xDC00 ≤ u
+    · rw [if_pos c1]; exact ⟨_, rfl⟩
+    · rw [if_neg c1]
+      rcases h with h | h | ⟨a, b, h, h'⟩
+      · exact absurd h c1
+      · cases h
+      · cases h
+        rw [if_pos h']; exact ⟨_, rfl⟩
+
+theorem decode_encode : ∀ (cs : List Nat), AllScalar cs → decodeUtf16 (utf16Encode cs) = cs.map .ok
+  | [], _ => rfl
+  | c :: cs, h => by
+    have hc : IsScalar c := h c (by simp)
+    have ih := decode_encode cs (fun x hx => h x (by simp [hx]))
+    unfold IsScalar at hc
+    unfold utf16Encode
+    by_cases hlt : c < 0x10000
+    · rw [if_pos hlt, decodeUtf16_bmp c _ (by omega), ih]; rfl
+    · rw [if_neg hlt, decodeUtf16_pair _ _ _ (by omega) (by omega), ih]
+      simp only [List.map_cons, List.cons.injEq, U16Item.ok.injEq, and_true]
+      omega
+
+theorem decode_eq_map_ok : ∀ (n : Nat) (ws cs : List Nat), ws.length ≤ n → (∀ w ∈ ws, w < 65536) →
+    decodeUtf16 ws = cs.map .ok → ws = utf16Encode cs := by
+  intro n
+  induction n with
+  | zero =>
+    intro ws cs hl _ h
+    cases ws with
+    | nil => cases cs with
+      | nil => rfl
+      | cons c cs => simp [decodeUtf16] at h
+    | cons w ws => simp at hl
+  | succ n ih =>
+    intro ws cs hl hw h
+    cases ws with
+    | nil => cases cs with
+      | nil => rfl
+      | cons c cs => simp [decodeUtf16] at h
+    | cons u rest =>
+      have hu : u < 65536 := hw u (by simp)
+      by_cases h0 : u < 0xD800 ∨ 0xE000 ≤ u
+      · rw [decodeUtf16_bmp u rest h0] at h
+        cases cs with
+        | nil => simp at h
+        | cons c cs =>
+          simp only [List.map_cons, List.cons.injEq, U16Item.ok.injEq] at h
+          obtain ⟨rfl, h⟩ := h
+          have := ih rest cs (by simp at hl; omega) (fun w hw' => hw w (by simp [hw'])) h
+          unfold utf16Encode
+          rw [if_pos hu, ← this]
+      · -- a surrogate
+        by_cases hpair : u < 0xDC00 ∧ ∃ u2 r, rest = u2 :: r ∧ 0xDC00 ≤ u2 ∧ u2 ≤ 0xDFFF
+        · obtain ⟨hlt, u2, r, rfl, h2⟩ := hpair
+          rw [decodeUtf16_pair u u2 r (by omega) h2] at h
+          cases cs with
+          | nil => simp at h
+          | cons c cs =>
+            simp only [List.map_cons, List.cons.injEq, U16Item.ok.injEq] at h
+            obtain ⟨hc, h⟩ := h
+            have := ih r cs (by simp at hl; omega) (fun w hw' => hw w (by simp [hw'])) h
+            unfold utf16Encode
+            rw [if_neg (by omega), ← this]
+            simp only [List.cons.injEq, and_true]
+            omega
+        · have hbad : 0xDC00 ≤ u ∨ rest = [] ∨ ∃ u2 r, rest = u2 :: r ∧ (u2 < 0xDC00 ∨ 0xDFFF < u2) := by
+            by_cases c1 : 0xDC00 ≤ u
+            · exact Or.inl c1
+            · cases rest with
+              | nil => exact Or.inr (Or.inl rfl)
+              | cons u2 r =>
+                refine Or.inr (Or.inr ⟨u2, r, rfl, ?_⟩)
+                by_cases c2 : u2 < 0xDC00 ∨ 0xDFFF < u2
+                · exact c2
+                · exact absurd ⟨by omega, u2, r, rfl, by omega, by omega⟩ hpair
+          obtain ⟨tl, hd⟩ := decodeUtf16_bad u rest h0 hbad
+          rw [hd] at h
+          cases cs with
+          | nil => simp at h
+          | cons c cs => simp at h
+
+/-- the comparison `decode_utf16(words).eq(chars.map(Ok))` is equality with the UTF-16 encoding -/
+theorem decode_eq_iff (ws cs : List Nat) (hw : ∀ w ∈ ws, w < 65536) (hc : AllScalar cs) :
+    decodeUtf16 ws = cs.map .ok ↔ ws = utf16Encode cs := by
+  constructor
+  · exact decode_eq_map_ok ws.length ws cs (Nat.le_refl _) hw
+  · intro h; rw [h]; exact decode_encode cs hc
+
+theorem strChars_scalar (s : List Nat) : AllScalar (strChars s) := by
+  unfold strChars
+  cases h : utf8Chars s with
+  | none => intro x hx; cases hx
+  | some cs => exact utf8Chars_scalar s cs h
+
+/-! ### `Name::eq` against the documented rules -/
+
+def RName.InRange : RName → Prop
+  | .id n => n < 4294967296
+  | .wide ws => ∀ w ∈ ws, w < 65536
+
+/-- the comparison the lookups make (`de.name() == Ok(name)`) decides exactly `nameMatch` -/
+theorem eq_eq_nameMatch (nm : RName) (q : Name) (h : nm.InRange) : nm.toName.eq q = nameMatch nm q := by
+  cases nm with
+  | id n =>
+    cases q with
+    | id m => rfl
+    | wide ws => rfl
+    | str s =>
+      show (Name.id n).eqString s = _
+      rw [eqString_id n s h]; rfl
+  | wide ws =>
+    cases q with
+    | id m => rfl
+    | wide vs => rfl
+    | str s =>
+      show (Name.wide ws).eqString s = _
+      unfold Name.eqString nameMatch
+      dsimp only
+      have := decode_eq_iff ws (strChars s) h (strChars_scalar s)
+      by_cases hd : decodeUtf16 ws = (strChars s).map .ok
+      · rw [decide_eq_true hd, decide_eq_true (this.1 hd)]
+      · rw [decide_eq_false hd, decide_eq_false (fun he => hd (this.2 he))]
+
+end Pelite.Resources
